@@ -116,6 +116,13 @@ NS['gt3'] = gt3
 NULLARY += ['type[L0]', 'type[int]', 'type[Union[L0, int]]', 'type[TB]', 'tuple[Annotated[object, ISEQ(5), IS(gt3)]]',
             "list[Annotated[object, ISATTR('x', ISEQ(1))]]", 'Annotated[int, ISEQ(5), IS(gt3)]']
 LEAVES_EXT += ['type[L1]', 'Annotated[object, ISEQ(5), IS(gt3)]']
+# negated / nested validator algebra inside hints; validators over an ignorable metahint as the FIRST member of an all-PEP union nested in a
+# container (the position where the generator hands the validator an assignment expression instead of a name)
+NS.setdefault('even', even)
+NULLARY += ['Annotated[int, NOT(AND(IS(pos), IS(even)))]', 'Annotated[object, NOT(AND(ISINST(L0), ISEQ(5)))]', 'list[Annotated[int, NOT(OR(IS(pos), ISEQ(5)))]]',
+            'Annotated[int, OR(NOT(AND(IS(pos), IS(gt3))), ISEQ(7))]', 'list[Union[Annotated[object, AND(ISINST(L0), ISEQ(5))], tuple[int, ...]]]',
+            'list[Union[Annotated[object, ISEQ(5), IS(gt3)], list[str]]]', 'tuple[Union[Annotated[Any, OR(IS(pos), ISEQ(5))], list[str]], ...]',
+            "dict[str, Union[Annotated[object, ISATTR('x', ISEQ(1))], list[int]]]", 'list[Union[list[str], Annotated[object, AND(IS(pos), IS(gt3))]]]']
 NULLARY += ['GLI', 'GL2[int]', 'GLI3', 'GDI[L0]', 'list[GLI]', 'GL2[L0]']
 NULLARY += ['GI[L0, int]', 'GI[str, L1]', 'list[GI[int, str]]']
 NULLARY += ['GD[L0, T]', 'GD[L0, GS[L1]]', 'GD[GL[L1], GS[int]]', 'GL[GL[L0]]', 'GD[str, GD[int, L0]]', 'list[GD[L0, GL[L1]]]']
